@@ -1006,5 +1006,38 @@ func vfC05Capacity(s *vfC05Sink) {
 			cases = append(cases, c)
 		}
 	}
+	// rebalancing-mode family: the dense attribute index of a dataset is modified under every
+	// rebalancing mode the writer offers (each mode has its own deletion path in the index):
+	// 12 attributes, the mode switched before the attributes or before the deletions, 1..3
+	// deletions (first, middle, last name), one more attribute afterwards
+	for _, sb := range []uint8{2, 0, 3} {
+		for _, mode := range []string{"", "DisableRebalancing", "EnableLazyRebalancing", "EnableIncrementalRebalancing"} {
+			for _, early := range []bool{true, false} {
+				if mode == "" && !early {
+					continue
+				}
+				for ndel := 1; ndel <= 3; ndel++ {
+					h := []vfOp{{Op: "mkds", Path: "/x", Type: "f64", Dims: []uint64{4}}}
+					if mode != "" && early {
+						h = append(h, vfOp{Op: "toggle", Bad: mode})
+					}
+					for i := 0; i < 12; i++ {
+						h = append(h, vfOp{Op: "attr", Path: "/x", Name: fmt.Sprintf("n%02d", i), Value: []string{"i64", "s40", "f32"}[i%3]})
+					}
+					if mode != "" && !early {
+						h = append(h, vfOp{Op: "toggle", Bad: mode})
+					}
+					for _, i := range []int{0, 6, 11}[:ndel] {
+						h = append(h, vfOp{Op: "delattr", Path: "/x", Name: fmt.Sprintf("n%02d", i)})
+					}
+					h = append(h, vfOp{Op: "attr", Path: "/x", Name: "after", Value: "i32a"})
+					cfg := fmt.Sprintf("sb%d/rebalancing-mode(%q,switched-first=%v,deletions=%d)", sb, mode, early, ndel)
+					c := vfC05SeqCase(cfg, sb, h, 0)
+					c.name = "capacity " + cfg
+					cases = append(cases, c)
+				}
+			}
+		}
+	}
 	vkit.ParallelFor(len(cases), func(i int) { s.exec("capacity", cases[i]) })
 }
